@@ -728,3 +728,197 @@ def rebase(snapshot, ghost_before, current):
         if kind == 'g': toks += val
         else: toks.append(val)
     return toks, len(edits), edits
+
+# ------------------------------------------------------------------ directed normalisation of restructured control flow (R30-R33)
+# When the current function differs from the snapshot, a small set of SOUND, purely syntactic control-flow rewrites is tried on
+# the CURRENT tokens; one is kept only when it brings the function closer (token LCS distance) to the snapshot.  What Verus then
+# checks is the rewritten form of the current code; every applied rule is recorded (`normalized_by`) in the unit result.
+#   R30a  `if C { return; } REST }`            -> `if !(C) { REST } }`              (unit fn, the `if` is a statement of the fn body)
+#   R30b  `if C { BODY } }` (last stmt of fn)  -> `if !(C) { return; } BODY }`      (unit fn, no else)
+#   R30c  `if C { X; return; } REST }`         -> `if C { X } else { REST } }`      (unit fn; `}` closes a block that runs to the fn end)
+#   R31a  `if A { if B { X } }`                -> `if A && B { X }`                 (no else on either, no `let` in A or B)
+#   R31b  `if A && B { X }`                    -> `if A { if B { X } }`             (no else, split at a top-level &&)
+#   R32a  `match E { P => X, Q => Y }`         -> `if let P = E { X } else { Y }`   (two arms, no guards, Q binds nothing)
+#   R32b  `if let P = E { X } else { Y }`      -> `match E { P => { X } _ => { Y } }`
+#   R33a  `loop { if C { break; } B }`         -> `while !(C) { B }`
+#   R33b  `while C { B }`                      -> `loop { if !(C) { break; } B }`   (C without `let`)
+# `!(C)` is simplified only where that is exact for every type: `!(!X)` = X for an operator-free X, `!(a == b)` = `a != b`.
+_BINOPS = ('&&', '||', '==', '!=', '<', '>', '<=', '>=', '+', '-', '*', '/', '%', '&', '|', '^', '<<', '>>', '=', 'as', '..', '..=', '?')
+
+def _top_level(ts):
+    """indices of tokens of ts at bracket depth 0"""
+    d = 0; out = []
+    for i, t in enumerate(ts):
+        if t in ('(', '[', '{'): d += 1
+        elif t in (')', ']', '}'): d -= 1
+        elif d == 0: out.append(i)
+    return out
+
+def _neg(c):
+    c = list(c); top = _top_level(c)
+    ops = [i for i in top if c[i] in _BINOPS]
+    if c and c[0] == '!' and not [i for i in ops if i > 0] and 'let' not in c: return c[1:]
+    if c and not ops and c[0] != '!' and 'let' not in c: return [Tok('!')] + c
+    if len(ops) == 1 and c[ops[0]] in ('==', '!=') :
+        i = ops[0]; return c[:i] + [Tok('!=' if c[i] == '==' else '==', getattr(c[i], 'line', None))] + c[i + 1:]
+    return [Tok('!'), Tok('(')] + c + [Tok(')')]
+
+def _cond_end(ts, i):
+    """ts[i] in ('if','while','match'); index of the `{` that opens its block"""
+    d = 0; k = i + 1
+    while k < len(ts):
+        t = ts[k]
+        if t in ('(', '['): d += 1
+        elif t in (')', ']'): d -= 1
+        elif t == '{' and d == 0: return k
+        k += 1
+    return None
+
+def _stmt_start(ts, i):
+    return i > 0 and ts[i - 1] in (';', '{', '}')
+
+def _enclosing_open(ts, i):
+    d = 0
+    for k in range(i - 1, -1, -1):
+        if ts[k] == '}': d += 1
+        elif ts[k] == '{':
+            if d == 0: return k
+            d -= 1
+    return None
+
+def _tail_block(ts, o, bo):
+    """the block opened at ts[o] runs to the end of the function: it is the fn body, or a branch of an if/else statement that is the
+    last statement of a block which itself runs to the end of the function (so falling out of it == `return;` in a unit fn)"""
+    for _ in range(12):
+        if o == bo: return True
+        c = match_close(ts, o)
+        # the whole if / else-if / else chain this block belongs to must end right before the `}` of its enclosing block
+        e = c
+        while e + 1 < len(ts) and ts[e + 1] == 'else':
+            k = e + 2
+            if ts[k] == 'if':
+                k = _cond_end(ts, k)
+                if k is None: return False
+            if ts[k] != '{': return False
+            e = match_close(ts, k)
+        if e + 1 >= len(ts) or ts[e + 1] != '}': return False
+        # and it must be an `if`/`else` block (not a loop / match arm / closure)
+        j = o - 1; d = 0
+        while j >= 0:
+            if ts[j] in (')', ']'): d += 1
+            elif ts[j] in ('(', '['): d -= 1
+            elif d == 0 and ts[j] in (';', '{', '}', 'if', 'else', 'while', 'for', 'loop', 'match', '=>', '|'): break
+            j -= 1
+        if j < 0 or ts[j] not in ('if', 'else'): return False
+        if ts[j] == 'if' and j + 1 < len(ts) and ts[j + 1] == 'let': pass
+        o = _enclosing_open(ts, o)
+        if o is None: return False
+    return False
+
+def _is_unit_fn(ts, bo):
+    return '->' not in [str(t) for t in ts[:bo]]
+
+def _norm_candidates(ts):
+    ts = list(ts); n = len(ts)
+    try: bo = body_open(ts, 0)
+    except Exception: bo = None
+    if bo is None: return
+    try: bc = match_close(ts, bo)
+    except ValueError: return
+    unit_fn = _is_unit_fn(ts, bo)
+    for i in range(bo, n):
+        t = ts[i]
+        try:
+            if t == 'if' and _stmt_start(ts, i) and (i + 1 < n and ts[i + 1] != 'let'):
+                o = _cond_end(ts, i)
+                if o is None: continue
+                c = match_close(ts, o); cond = ts[i + 1:o]; body = ts[o + 1:c]
+                has_else = c + 1 < n and ts[c + 1] == 'else'
+                enc = _enclosing_open(ts, i)
+                if not has_else and unit_fn and enc is not None and _tail_block(ts, enc, bo):
+                    ec = match_close(ts, enc)
+                    if [str(x) for x in body] == ['return', ';']:                                      # R30a
+                        yield 'R30a', ts[:i] + [ts[i]] + _neg(cond) + [ts[o]] + ts[c + 1:ec] + [ts[c]] + ts[ec:]
+                    elif [str(x) for x in body[-2:]] == ['return', ';'] and c + 1 < ec:                # R30c
+                        yield 'R30c', ts[:i] + ts[i:o + 1] + body[:-2] + [ts[c], Tok('else'), Tok('{')] + ts[c + 1:ec] + [Tok('}')] + ts[ec:]
+                    if c + 1 == ec:                                                                    # R30b
+                        yield 'R30b', ts[:i] + [ts[i]] + _neg(cond) + [ts[o], Tok('return'), Tok(';'), ts[c]] + body + ts[ec:]
+                if not has_else and 'let' not in cond:
+                    if body and body[0] == 'if' and (len(body) > 1 and body[1] != 'let'):              # R31a
+                        o2 = _cond_end(body, 0)
+                        if o2 is not None and match_close(body, o2) == len(body) - 1 and 'let' not in body[1:o2]:
+                            def par(x):
+                                return [Tok('(')] + list(x) + [Tok(')')] if any(x[k] in ('||', '=', '..', '..=') for k in _top_level(x)) else list(x)
+                            yield 'R31a', ts[:i + 1] + par(cond) + [Tok('&&')] + par(body[1:o2]) + body[o2:] + ts[c + 1:]
+                    for k in _top_level(cond):                                                          # R31b
+                        if cond[k] == '&&' and not any(cond[m] == '||' for m in _top_level(cond)):
+                            yield 'R31b', ts[:i + 1] + cond[:k] + [ts[o], Tok('if')] + cond[k + 1:] + [Tok('{')] + body + [Tok('}'), ts[c]] + ts[c + 1:]
+            if t == 'if' and i + 1 < n and ts[i + 1] == 'let' and (_stmt_start(ts, i) or ts[i - 1] in ('=', 'return', '=>')):   # R32b
+                o = _cond_end(ts, i)
+                if o is None: continue
+                c = match_close(ts, o); head = ts[i + 2:o]
+                eqs = [k for k in _top_level(head) if head[k] == '=']
+                if not eqs: continue
+                pat, scrut = head[:eqs[0]], head[eqs[0] + 1:]
+                if c + 1 < n and ts[c + 1] == 'else':
+                    if ts[c + 2] != '{': continue
+                    c2 = match_close(ts, c + 2); els = ts[c + 2:c2 + 1]; end = c2 + 1
+                else:
+                    els = [Tok('{'), Tok('}')]; end = c + 1
+                yield 'R32b', ts[:i] + [Tok('match')] + scrut + [Tok('{')] + pat + [Tok('=>')] + ts[o:c + 1] + [Tok('_'), Tok('=>')] + els + [Tok('}')] + ts[end:]
+            if t == 'match' and (_stmt_start(ts, i) or ts[i - 1] in ('=', 'return', '=>')):                                     # R32a
+                o = _cond_end(ts, i)
+                if o is None: continue
+                c = match_close(ts, o); inner = ts[o + 1:c]
+                arms = []; k = 0; ok = True
+                while k < len(inner):
+                    tl = [m for m in _top_level(inner[k:]) if inner[k + m] == '=>']
+                    if not tl: ok = False; break
+                    a = k + tl[0]; pat = inner[k:a]
+                    if a + 1 < len(inner) and inner[a + 1] == '{':
+                        e = match_close(inner, a + 1); arm = inner[a + 1:e + 1]; k = e + 1
+                        if k < len(inner) and inner[k] == ',': k += 1
+                    else:
+                        rest = inner[a + 1:]; cm = [m for m in _top_level(rest) if rest[m] == ',']
+                        e = (a + 1 + cm[0]) if cm else len(inner)
+                        ex = inner[a + 1:e]
+                        semi = [Tok(';')] if any(ex[m] in ('=', '+=', '-=', '*=', '/=', '|=', '&=', '^=', '<<=', '>>=', '%=') for m in _top_level(ex)) else []
+                        arm = [Tok('{')] + ex + semi + [Tok('}')]; k = e + 1
+                    arms.append((pat, arm))
+                if not ok or len(arms) != 2: continue
+                (p1, a1), (p2, a2) = arms
+                if 'if' in p1 or 'if' in p2: continue
+                binds = [x for x in p2 if re.match(r'^[a-z_][a-z0-9_]*$', x) and x != '_']
+                if binds: continue
+                yield 'R32a', ts[:i] + [Tok('if'), Tok('let')] + p1 + [Tok('=')] + ts[i + 1:o] + a1 + [Tok('else')] + a2 + ts[c + 1:]
+            if t == 'loop' and i + 1 < n and ts[i + 1] == '{' and _stmt_start(ts, i):                                            # R33a
+                o = i + 1; c = match_close(ts, o)
+                if ts[o + 1] == 'if' and ts[o + 2] != 'let':
+                    o2 = _cond_end(ts, o + 1); c2 = match_close(ts, o2)
+                    if [str(x) for x in ts[o2 + 1:c2]] == ['break', ';'] and not (c2 + 1 < n and ts[c2 + 1] == 'else'):
+                        yield 'R33a', ts[:i] + [Tok('while')] + _neg(ts[o + 2:o2]) + [ts[o]] + ts[c2 + 1:]
+            if t == 'while' and _stmt_start(ts, i) and ts[i + 1] != 'let':                                                     # R33b
+                o = _cond_end(ts, i)
+                if o is None: continue
+                yield 'R33b', ts[:i] + [Tok('loop'), ts[o], Tok('if')] + _neg(ts[i + 1:o]) + [Tok('{'), Tok('break'), Tok(';'), Tok('}')] + ts[o + 1:]
+        except (ValueError, IndexError):
+            continue
+
+def _lcs_dist(a, b):
+    sm = difflib.SequenceMatcher(a=a, b=b, autojunk=False)
+    m = sum(bl.size for bl in sm.get_matching_blocks())
+    return (len(a) - m) + (len(b) - m)
+
+def directed_normalize(cur, snap, max_steps=6):
+    """returns (tokens, [rule names applied]); tokens is `cur` itself when no rule helps"""
+    cur = list(cur); s = strs(snap); applied = []
+    best = _lcs_dist(strs(cur), s)
+    for _ in range(max_steps):
+        if best == 0: break
+        pick = None
+        for name, cand in _norm_candidates(cur):
+            d = _lcs_dist(strs(cand), s)
+            if d < best and (pick is None or d < pick[0]): pick = (d, name, cand)
+        if pick is None: break
+        best, name, cur = pick; applied.append(name)
+    return cur, applied
